@@ -230,7 +230,7 @@ def needs_default_constructible_members(t, seen=None):
     return any(needs_default_constructible_members(x, seen) for x in dsdlgen.composite_deps(t))
 
 
-CTOR_DIAG = re.compile(r"no matching constructor for initialization|no matching function for call to|could not convert '<brace-enclosed initializer list>|"
+CTOR_DIAG = re.compile(r"no matching constructor for initialization|no matching function for call to|could not convert .<brace-enclosed initializer list>|"
                        r"implicitly-deleted default constructor|use of deleted function|no matching member function for call to 'emplace'|call to deleted constructor")
 
 
